@@ -95,6 +95,18 @@ CHECKS = {
              "every bound; zero initialisers of k[] at every EvalRates call site; KROME bound reader vs model.",
         design="4/C06", technique="Lean 4 proof (linear-order case analysis, induction over the bound list) + parsed-guard and compiled-code differential check",
         note="A rate modifier replaces the guard together with the rate (documented in C13). Python's float() reads the bound text."),
+    "C05": dict(
+        text="Theorem parse_eq_expected (exhaustive kernel evaluation: for all 32 gas-phase templates x 64 sign classes of "
+             "alpha/beta/gamma with arbitrary opaque magnitudes x 7 first reactants, the emitted characters after _beautify lex "
+             "with maximal munch and parse - no '--'/'++' token - to a stated tree); law theorems over the reals on those trees "
+             "for all coefficient values and all T, Av, zeta...: arrhenius_law, cosmicray_law, photo_law, ionpol1_law, "
+             "ionpol2_law, umist_cp_law, crphot_law, crphot_scaled_law, cr_scaled_law, photo_g0_law; type_tables over the "
+             "code tables regenerated from the source. Tie: real rateexpr() strings of all five classes compared character by "
+             "character with the model; oracle evaluates the emitted text against independently written published laws and "
+             "compiles all strings with g++ -fsyntax-only.",
+        design="4/C05", technique="Lean 4 proof (decide +kernel over templates x sign classes; real-analysis identities) + character-level differential check",
+        note="Non-finite coefficients (inf/nan) are outside; magnitudes are opaque (Python repr never starts/ends with a sign); "
+             "IEEE evaluation is compared with 1e-9 relative tolerance; shielding functions are opaque symbols."),
 }
 
 NOT_YET = {}
